@@ -4,6 +4,8 @@ import PhyVerif.Model.C18c
 import PhyVerif.Model.C18p
 import PhyVerif.Spec.C18
 import PhyVerif.Spec.C18c
+import PhyVerif.Model.C18j
+import PhyVerif.Spec.C18j
 namespace PhyVerif.Driver
 open Lean PhyVerif.C18
 
@@ -155,6 +157,18 @@ def jPVal : PVal → Json
 def jParams (d : Option (List (String × PVal))) : Json :=
   jOpt (jList fun (kv : String × PVal) => Json.arr #[Json.str kv.1, jPVal kv.2]) d
 
+/-- `save_json` then `load_json` on one top-level dictionary given as `[[key, value], ...]` -/
+def jsonRoundTrip (dict : Json) : R Json := do
+  let entries ← asArr dict
+  let d ← entries.mapM fun e => do
+    let p ← asArr e
+    match p with
+    | [k, v] => do pure (← asKey k, ← asPV v)
+    | _ => .error "entry"
+  let rt := roundTrip d
+  pure (Json.mkObj [("model", jList (fun (kv : Key × PV) => Json.arr #[jKey kv.1, jPV kv.2]) rt),
+                    ("spec", jList (fun (kv : Key × PV) => Json.arr #[jKey kv.1, jPV (canon kv.2)]) d)])
+
 def runC18 (op : String) (j : Json) : R Json := do
   match op with
   | "params" =>
@@ -228,16 +242,33 @@ def runC18 (op : String) (j : Json) : R Json := do
                       ("meta", jMeta (loadMetadata text)),
                       ("meta_expected", jMeta (some (if data = [] then [] else
                           [(field, (sortById data).map fun p => (Num.int p.1, obsS p.2))])))])
-  | "json" =>
-    let entries ← fld j "dict" >>= asArr
-    let d ← entries.mapM fun e => do
-      let p ← asArr e
-      match p with
-      | [k, v] => do pure (← asKey k, ← asPV v)
-      | _ => .error "entry"
-    let rt := roundTrip d
-    pure (Json.mkObj [("model", jList (fun (kv : Key × PV) => Json.arr #[jKey kv.1, jPV kv.2]) rt),
-                      ("spec", jList (fun (kv : Key × PV) => Json.arr #[jKey kv.1, jPV (canon kv.2)]) d)])
+  | "json" => do jsonRoundTrip (← fld j "dict")
+  | "json_many" =>
+    -- several dictionaries saved and loaded one after the other by ONE process of the real code (a child process
+    -- running under another locale): one answer per dictionary
+    let ds ← fld j "dicts" >>= asArr
+    pure (Json.mkObj [("results", Json.arr (← ds.mapM jsonRoundTrip).toArray)])
+  | "jsonstr" =>
+    -- the text layer of strings (Model/C18j): for each str (code points) the literal `save_json` writes, the
+    -- scanner on it (followed by the end of a one-entry file), the same through an ASCII-encoded file, the codecs;
+    -- `impl_bodies`: the text the REAL code wrote after the opening quote of the value, through the model scanner
+    let ss ← fld j "strings" >>= asList (asList asNat)
+    let bodies ← match j.getObjVal? "impl_bodies" with
+      | .ok v => asList (asOpt (asList asNat)) v
+      | .error _ => pure (ss.map fun _ => none)
+    let jScan (r : Option (PyStr × List Nat)) : Json := jOpt (fun p => Json.arr #[jNats p.1, jNats p.2]) r
+    pure (Json.mkObj [("results", jList (fun (sb : PyStr × Option (List Nat)) =>
+      let s := sb.1
+      Json.mkObj [("literal", jNats (strLiteral s)),
+                  ("scanned", jScan (scan (escapeStr s ++ [34, 10, 125]))),
+                  ("via_ascii_file", jScan (strViaAsciiFile s)),
+                  ("ascii", jOpt jNats (strictAscii (strLiteral s))),
+                  ("utf8_ok", Json.bool (strictUtf8Ok (strLiteral s))),
+                  ("raw_ascii_ok", Json.bool (strictAscii s).isSome),
+                  ("raw_utf8_ok", Json.bool (strictUtf8Ok s)),
+                  ("valid", Json.bool (decide (ValidStr s))),
+                  ("nojoin", Json.bool (decide (NoJoin s))),
+                  ("real_scanned", jOpt jScan (sb.2.map scan))]) (ss.zip bodies))])
   | _ => .error s!"C18: unknown op {op}"
 
 end PhyVerif.Driver
